@@ -295,6 +295,14 @@ def stepRef (ev : Frame N → Task N → State N → Res N) (fr : Frame N) (e : 
         | none => (.err (.unmodelled "cyclic container to string"), st4)
   | _ => (.noref, st)                                           -- expression.cpp:66-69
 
+/-- expression.cpp:463-493: the callee value decides before any argument is evaluated. -/
+def callWith (ev : Frame N → Task N → State N → Res N) (fr : Frame N) (args : List (Expr N)) (self vf : Value N) (st1 : State N) : Res N :=
+  match vf with
+  | .typ _ => (.err (.unmodelled "constructor call"), st1)                                          -- :463
+  | .fn _ | .native _ =>
+    bindVals (ev fr (.exprs args []) st1) fun vs st2 => ev fr (.call vf self vs) st2
+  | _ => (.err (.script .notcallable "Argument is not a callable object."), st1)                   -- :476
+
 /-- `DoEvaluate` of the node, in the frame and state that `Expression::Evaluate` prepared. -/
 def stepNode (ev : Frame N → Task N → State N → Res N) (fr : Frame N) (e : Expr N) (st : State N) : Res N :=
   match e with
@@ -356,18 +364,12 @@ def stepNode (ev : Frame N → Task N → State N → Res N) (fr : Frame N) (e :
         | some i => liftE (getField st2 va i, st2)
         | none => (.err (.unmodelled "cyclic container to string"), st2)
   | .call fe args =>                                            -- expression.cpp:449-494
-    let withFn (self vf : Value N) (st1 : State N) : Res N :=
-      match vf with
-      | .typ _ => (.err (.unmodelled "constructor call"), st1)                                          -- :463
-      | .fn _ | .native _ =>
-        bindVals (ev fr (.exprs args []) st1) fun vs st2 => ev fr (.call vf self vs) st2
-      | _ => (.err (.script .notcallable "Argument is not a callable object."), st1)                   -- :476
     bindRef (ev fr (.ref fe false) st)
       (fun self index st1 =>
         match getField st1 self index with
-        | .ok vf => withFn self vf st1
+        | .ok vf => callWith ev fr args self vf st1
         | .error e => (.err e, st1))
-      (fun st1 => bindCallee (ev fr (.expr fe) st1) fun vf st2 => withFn .empty vf st2)
+      (fun st1 => bindCallee (ev fr (.expr fe) st1) fun vf st2 => callWith ev fr args .empty vf st2)
   | .array es =>                                                -- expression.cpp:496-509
     bindVals (ev fr (.exprs es []) st) fun vs st1 => liftE (newArr st1 vs)
   | .dict body =>                                               -- expression.cpp:511-540 (not inline)
